@@ -90,7 +90,8 @@ func runSeed(cfg *Config, idx int) uint64 {
 }
 
 func digest(r *core.Result) string {
-	return r.LogHash + "|" + r.Class + "|" + fmt.Sprintf("%016x", core.HashString(r.Detail)) + "|" + fmt.Sprint(r.Steps)
+	// "<verdict>#<event log>": the driver compares both parts
+	return r.Class + "|" + fmt.Sprintf("%016x", core.HashString(r.Detail)) + "#" + r.LogHash + "|" + fmt.Sprint(r.Steps)
 }
 
 func TestWorker(t *testing.T) {
@@ -153,7 +154,7 @@ func TestWorker(t *testing.T) {
 			if sum.Determinism == nil {
 				sum.Determinism = map[string]string{}
 			}
-			sum.Determinism[fmt.Sprint(cur.idx)] = "stall|" + class + "|" + si.Sim.LogHash()
+			sum.Determinism[fmt.Sprint(cur.idx)] = "stall|" + class + "#" + si.Sim.LogHash()
 		default:
 			sum.Runs++
 			if class[:9] == "machinery" {
